@@ -1,4 +1,4 @@
-CONSTANTS Impl = "asbuilt"
+CONSTANTS Impls = {"asbuilt"}
           AllowPartial = FALSE
           DoEmit = FALSE
           Strata <- StrataQuick
